@@ -412,8 +412,12 @@ class Check:
             'coverage': cov, 'assumptions': assumptions or [], 'wall_s': round(wall, 2),
             'violations': len(self.violations),
         }
-        (VERIF / 'evidence').mkdir(exist_ok=True)
-        (VERIF / 'evidence' / f'{self.pid}.json').write_text(json.dumps(ev, indent=1, default=str))
+        if str(REPO) == '/repo':
+            (VERIF / 'evidence').mkdir(exist_ok=True)
+            (VERIF / 'evidence' / f'{self.pid}.json').write_text(json.dumps(ev, indent=1, default=str))
+        else:
+            # self-validation run against a scratch tree ($VERIF_REPO): never touches the committed evidence
+            (self.work / 'evidence.json').write_text(json.dumps(ev, indent=1, default=str))
         for sig, what in self.known_hits:
             log(f'KNOWN-FINDING: property={self.pid} {what}')
         if self.violations:
